@@ -4,6 +4,7 @@ pub mod c02;
 pub mod c02_table;
 pub mod c03;
 pub mod inst;
+pub mod samples;
 pub mod c07;
 pub mod c16;
 pub mod c17;
@@ -38,6 +39,9 @@ pub fn dispatch(op: &str, input: &Tree) -> Result<Tree, String> {
         return r;
     }
     if let Some(r) = inst::dispatch(op, input) {
+        return r;
+    }
+    if let Some(r) = samples::dispatch(op, input) {
         return r;
     }
     Err(format!("unknown op {op}"))
